@@ -6,6 +6,7 @@ import SfntV.Proofs.CffIndex
 import SfntV.Proofs.CffDict
 import SfntV.Proofs.CffReal
 import SfntV.Proofs.CffRealClamp
+import SfntV.Proofs.CffDictRt
 import SfntV.Proofs.CffCharset
 import SfntV.Proofs.CffFdselect
 import SfntV.Proofs.CffWidths
@@ -144,6 +145,26 @@ example : encodeReal false 123000000 4 = [0x12, 0x30, 0xff] := by decide
 example : parseDec ((realNibbles false 123000000 4).flatMap nibChars) = some (false, 1230, 0) := by decide
 example : parseDec ((realNibbles false 123000000 (-2)).flatMap nibChars) = some (false, 123, -5) := by decide
 example : parseDec ((realNibbles true 150000000 21).flatMap nibChars) = some (true, 15, 19) := by decide
+
+/-! ## whole DICTs -/
+
+/-- A DICT (Go map: pairwise distinct operators) whose operators are not string-valued and
+encodable (one byte 0…21 except 12, or escape 12 + one byte) and whose operands are int32
+values or written reals: `decodeDict (d.encode())` delivers the entries in `sortedKeys` order
+with every operand intact (reals in normal form).  This covers the private DICTs and Font DICTs
+written by `Write` (BlueValues/OtherBlues deltas, BlueShift, BlueFuzz, ForceBold, Subrs,
+defaultWidthX, nominalWidthX, Private) and the non-string part of the Top DICT. -/
+theorem C13_dict_roundtrip (std custom : Array String) (d : List (Nat × List Operand))
+    (hn : (d.map (·.1)).Nodup)
+    (hv : ∀ e ∈ d, ValidOp e.1 ∧ ∀ o ∈ e.2, ValidOperand o) :
+    decodeDict std custom (encodeDict d)
+      = .ok ((sortDict d).map fun e => (e.1, e.2.map decOperand)) :=
+  decodeDict_encodeDict_nodup std custom d hn hv
+
+-- a private DICT: BlueValues deltas, Subrs offset, nominalWidthX, and BlueScale 0.039625 as a real
+example : encodeDict [(6, [.int (-20), .int 20, .int 500]), (19, [.int 1200]), (21, [.int (-32769)]),
+      (3081, [.real false 396250000 (-1)])]
+    = [119, 159, 248, 136, 6, 28, 4, 176, 19, 29, 255, 255, 127, 255, 21, 30, 160, 57, 98, 95, 12, 9] := by decide
 
 /-! ## charset -/
 
